@@ -55,6 +55,37 @@ def edit_payload(v, rng):
     return [v, "edited"]
 
 
+def inplace_edit(v, rng):
+    """change something inside v without replacing v (prefers a deeply nested container)"""
+    cur = v
+    for _ in range(8):
+        if type(cur) is dict and cur:
+            k = rng.choice(list(cur))
+            if type(cur[k]) in (dict, list) and cur[k] and rng.random() < 0.8:
+                cur = cur[k]
+                continue
+            cur[k] = ["edited", cur[k]]
+            return
+        if type(cur) is list and cur:
+            i = rng.randrange(len(cur))
+            if type(cur[i]) in (dict, list) and cur[i] and rng.random() < 0.8:
+                cur = cur[i]
+                continue
+            cur[i] = ["edited", cur[i]]
+            return
+        break
+    if type(cur) is dict:
+        cur["edited"] = 1
+    elif type(cur) is list:
+        cur.append("edited")
+
+
+def json_roundtrip(v):
+    import json
+
+    return json.loads(json.dumps(v))
+
+
 def _container_ids(v, acc=None):
     acc = set() if acc is None else acc
     if type(v) is dict:
@@ -188,6 +219,31 @@ def check_case(case, rec, lib, sp=None):
     if not o.accepted:
         rec.violation(boundary.mechanism("roundtrip", "verify_signable", "accept[reordered]", o),
                       "re-ordering keys of the payload invalidated signatures", case)
+    # IN-PLACE edit of the very object held in the envelope (possibly deep inside a nested container),
+    # right after it has been signed and verified: every signature must stop counting, and a key that
+    # signs afterwards must sign the edited content
+    if type(env["signed"]) in (dict, list):
+        e5 = {"signatures": copy.deepcopy(env["signatures"]), "signed": copy.deepcopy(env["signed"])}
+        boundary.call(lib, A.verify_signable, e5, auth, 1)  # the library has just seen (and serialised) this object
+        before_bytes = canonjson.canon(e5["signed"])
+        inplace_edit(e5["signed"], rng)
+        if canonjson.in_domain(e5["signed"]) and canonjson.canon(e5["signed"]) != before_bytes:
+            o = boundary.call(lib, A.verify_signable, e5, auth, 1)
+            rec.count("inplace_edit_checks")
+            if o.accepted:
+                rec.violation("roundtrip/verify_signable/accepts-after-inplace-payload-edit",
+                              "signatures still count after the payload object was edited in place", dict(case, edited_inplace=e5["signed"]))
+            k5 = ks[0]
+            o = sign_with(e5, k5)
+            want = {"signature": ed25519.sign(k5.seed, canonjson.canon(e5["signed"])).hex()}
+            if o.accepted and e5["signatures"].get(k5.hex) != want:
+                rec.violation("sign/signs-stale-bytes-after-inplace-edit",
+                              "signing after an in-place edit produced a signature over other bytes than the current payload", dict(case, edited_inplace=e5["signed"]))
+            elif o.accepted:
+                o = boundary.call(lib, A.verify_signable, json_roundtrip(e5), [k5.hex], 1)
+                if not o.accepted:
+                    rec.violation(boundary.mechanism("roundtrip", "verify_signable", "accept[after-inplace-edit+resign]", o),
+                                  "envelope re-signed after an in-place edit does not verify", case)
     # value-changing edit kills every signature
     edited = edit_payload(env["signed"], rng)
     e4 = {"signatures": copy.deepcopy(env["signatures"]), "signed": edited}
